@@ -84,6 +84,7 @@ type deferred struct {
 }
 
 type Frame struct {
+	hosted bool // an inlined helper without a contract that now contains loops the top function's contract describes
 	fi       *FuncInfo
 	info     *types.Info
 	pkg      *packages.Package
@@ -1429,7 +1430,7 @@ func (e *Exec) sendReady(st *State, ch Term) string {
 // loopHavoc: what is arbitrary at the loop head. With a `loop N modifies` clause the heap part is exactly the listed
 // targets (checked for one iteration by loopFrameCheck); otherwise the syntactic effects of the body.
 func (e *Exec) loopHavoc(head *State, fr *Frame, eff *Effects, ord int) {
-	if fr.top && fr.contract != nil {
+	if (fr.top || fr.hosted) && fr.contract != nil {
 		if mods, ok := fr.contract.LoopMods[ord]; ok {
 			for k, t := range eff.locals {
 				if _, ok := head.vars[k]; ok {
@@ -1455,7 +1456,7 @@ func (e *Exec) loopHavoc(head *State, fr *Frame, eff *Effects, ord int) {
 }
 
 func (e *Exec) loopFrameCheck(head, after *State, fr *Frame, ord int, pos string) {
-	if !fr.top || fr.contract == nil {
+	if !(fr.top || fr.hosted) || fr.contract == nil {
 		return
 	}
 	mods, ok := fr.contract.LoopMods[ord]
